@@ -41,12 +41,15 @@ func (c *vhClockCtx) Err() error {
 
 // vhSilentConn: the peer neither sends nor reads; every call stalls until the armed deadline.
 type vhSilentConn struct {
-	log     *[]string
-	armedR  int64
-	armedW  int64
-	armed   []int64 // every deadline armed, in order
-	armedAt []int64 // the instant it was armed at
-	stalls  int
+	log       *[]string
+	armedR    int64
+	armedW    int64
+	armed     []int64 // every deadline armed, in order
+	armedAt   []int64 // the instant it was armed at
+	stalls    int
+	maxStalls int
+	partial   bool // the first write takes a few bytes before stalling
+	wrote     int
 }
 
 func (c *vhSilentConn) stall(deadline int64) (int, error) {
@@ -57,11 +60,27 @@ func (c *vhSilentConn) stall(deadline int64) (int, error) {
 	vAssume(now >= deadline)
 	return 0, vhTimeoutErr{}
 }
-func (c *vhSilentConn) Read(p []byte) (int, error)  { return c.stall(c.armedR) }
-func (c *vhSilentConn) Write(p []byte) (int, error) { return c.stall(c.armedW) }
-func (c *vhSilentConn) Close() error                { return nil }
-func (c *vhSilentConn) LocalAddr() net.Addr         { return vhAddr{} }
-func (c *vhSilentConn) RemoteAddr() net.Addr        { return vhAddr{} }
+func (c *vhSilentConn) Read(p []byte) (int, error) {
+	if c.stalls >= c.maxStalls {
+		return 0, errVhStub // bound of the exploration: the connection finally breaks
+	}
+	return c.stall(c.armedR)
+}
+func (c *vhSilentConn) Write(p []byte) (int, error) {
+	if c.stalls >= c.maxStalls {
+		return 0, errVhStub
+	}
+	if c.partial && c.wrote == 0 && len(p) > 1 {
+		// the peer takes the first byte, then stops reading
+		c.wrote = 1
+		_, err := c.stall(c.armedW)
+		return 1, err
+	}
+	return c.stall(c.armedW)
+}
+func (c *vhSilentConn) Close() error         { return nil }
+func (c *vhSilentConn) LocalAddr() net.Addr  { return vhAddr{} }
+func (c *vhSilentConn) RemoteAddr() net.Addr { return vhAddr{} }
 func (c *vhSilentConn) SetDeadline(t time.Time) error {
 	return nil
 }
@@ -94,7 +113,7 @@ func HarnessC15Poll() {
 	} else {
 		vAssume(ctx.cancelAt <= start+k*vhPoll)
 	}
-	conn := &vhSilentConn{log: &log}
+	conn := &vhSilentConn{log: &log, maxStalls: vParam("polls", 3) + 2, partial: vParam("partial", 0) == 1}
 	cc := NewCtxConn(conn, 5*time.Second, 5*time.Second)
 	var err error
 	buf := make([]byte, 4)
